@@ -640,9 +640,9 @@ def run(ctx: Ctx) -> int:
     emitted = _emit_behaviours(ctx, ctx.pick(1200, 12000))
     emitted = emitted[: ctx.pick(820, 9000)]
     rows = _run_histories(ctx, emitted, 0, "tlc-behaviour")
-    rnd = _random_histories(ctx, ctx.pick(320, 6000))
+    rnd = _random_histories(ctx, ctx.pick(280, 6000))
     rows += _run_histories(ctx, rnd, 1_000_000, "random-driver")
-    rows += _thread_histories(ctx, ctx.pick(40, 600), 2_000_000)
+    rows += _thread_histories(ctx, ctx.pick(24, 600), 2_000_000)
     ctx.count(len(rows))
     slim = [{k: r[k] for k in ("id", "now", "nowl0", "defrk", "events")} for r in rows]
     bad, stats = validate(ctx, "TraceCache", "TraceCache.cfg", slim, chunk=ctx.pick(150, 600), what="hist")
